@@ -326,7 +326,8 @@ def prop_all(ctx, rule="PROP-ALL"):
     ctx.rule(rule, "in PropertySet::read every iteration of the loop over the directory entries, and of the loop over the recorded offsets, ends in an insertion into its map "
                    "(or leaves through an error): no property is skipped, so the set that is written back is the set that was read - including the code page property")
     r = prog.fn(PS + "PropertySet::read")
-    ins = {b for b, t in r.calls() if re.search(r"BTreeMap::<K, V, A>::insert$", cname(prog, t))}
+    ins = {b for b, t in r.calls() if re.search(r"BTreeMap::<K, V, A>::insert$|btree_map::VacantEntry::<'a, K, V, A>::insert(_entry)?$|btree_map::Entry::<'a, K, V, A>::or_insert(_with)?$",
+                                                cname(prog, t))}
     loops = cfg.natural_loops(r)
     n = 0
     for h, body in sorted(loops.items()):
